@@ -30,7 +30,7 @@ ALGOS = ['lru', 'lfu', 'mru', 'rr', 'inf', 'no']
 
 
 NAME_ARGS = ['caf\u00e9', 'cafe\u0301', '\u00c5ngstr\u00f6m', 'A\u030angstro\u0308m', 'P' * 300 + 'x', 'P' * 300 + 'y', 'P' * 252 + 'q', 'P' * 252 + 'r',
-             'name ', 'name', 'name.', 'Name', '\u212b', '\u00c5']
+             'name ', 'name', 'name.', 'Name', '\u212b', '\u00c5', 'data/run1.csv', 'data/run2.csv', 'http://host/x', 'data']
 
 
 def ref_fib(n, memo={}):
@@ -241,7 +241,8 @@ def run_case(cfg):
         elif cfg['scen'] == 'names':
             from klepto.keymaps import stringmap, keymap
             km = dict(string=lambda: stringmap(), raw=lambda: keymap(), stringr=lambda: stringmap(encoding='repr'))[cfg['keymap']]
-            def h(s): return ('v', s)
+            evals = []
+            def h(s): evals.append(s); return ('v', s)
             def session(tag):
                 kw = dict(keymap=km(), cache=kcache(archive=make_archive('dir', tmp, 'names')))
                 if cfg['algo'] != 'no': kw.update(maxsize=cfg['maxsize'], purge=False)
@@ -253,7 +254,13 @@ def run_case(cfg):
                     if got != ('v', NAME_ARGS[i]):
                         bad('C01', 'names-wrong-result', '%s session: h(%.40r) [%d characters] returned the result of h(%.40r) [%d characters]: two arguments share one archive entry' % (
                             tag, NAME_ARGS[i], len(NAME_ARGS[i]), got[1], len(got[1]))); return
+                f.dump()          # (the session ends by writing what is still only in memory)
             session('first'); session('second')
+            # C02: with the (lossless) archive attached every argument is evaluated once over both sessions - except those whose key no
+            # file name can hold (the archive cannot store them at all)
+            again = sorted(set(a_ for a_ in evals if evals.count(a_) > 1 and len(a_) < 200))
+            if again and not viol:
+                bad('C02', 'names-re-evaluation', 'the arguments %r were evaluated more than once although the dir_archive stayed attached over both sessions' % (again,))
         elif cfg['scen'] == 'twin':
             evals = []
             def g(x): evals.append(x); return 'v%d' % x
